@@ -154,7 +154,7 @@ impl Property for C03 {
             mism.push("claim generator".into());
         }
         // the signature is reported with the algorithm that made it
-        let want_alg = { let mut c = g.alg.chars(); c.next().map(|f| f.to_ascii_uppercase().to_string() + c.as_str()).unwrap_or_default() };
+        let want_alg = { let mut c = g.alg.trim_end_matches("-der").chars(); c.next().map(|f| f.to_ascii_uppercase().to_string() + c.as_str()).unwrap_or_default() };
         match m.get("signature_info").and_then(|s| s.get("alg")).and_then(|a| a.as_str()) {
             Some(a) if a.eq_ignore_ascii_case(&want_alg) => {}
             other => mism.push(format!("signature_info.alg {other:?} (signed with {})", g.alg)),
